@@ -71,8 +71,8 @@ def classify(v, T, plain_exc, field_exc):
         return "path-sequence-captured-by-file-member"
     if "FileNotFoundError" in (plain_exc, field_exc):
         for U, part in R.union_parts(v, T):
-            j = R.first_member(part, U)
-            if isinstance(part, str) and j and any(R.kind(m) == "set" and R.contains_atom(m, File) for m in R.targs(U)[:j]):
+            ms = R.targs(U)
+            if isinstance(part, str) and any(R.kind(m) == "set" and R.contains_atom(m, File) for m in ms[:-1]):
                 # the str belongs to a later union member, but an earlier set[...File...] member iterates it
                 # into characters (str -> Set is coercible) and File(char) raises FileNotFoundError
                 return "str-iterated-into-earlier-set-of-file-member"
@@ -314,20 +314,29 @@ def _down(x):
     return x
 
 
-def run_workflow(S, T, v, cache_root):
-    """upstream python task with output type S returning v, downstream python task with input x: T"""
+_WF_SRC = """
+def Wf_{tag}(v, up_cls, down_cls):
+    u = workflow.add(up_cls(v=v), name="u")
+    d = workflow.add(down_cls(x=u.out), name="d")  # the lazy connection S -> T is type-checked here
+    return d.out
+"""
+
+
+def run_workflow(S, T, v, cache_root, tag="0"):
+    """upstream python task with output type S returning v, downstream python task with input x: T.
+
+    Every generated workflow gets its own constructor NAME and receives the two task classes as
+    inputs: pydra identifies a workflow by its constructor's source + inputs (what a constructor
+    closes over is not part of its hash), so structurally identical constructors closing over
+    different task classes would share construction-cache entries."""
     from pydra.compose import python, workflow
 
-    Up = python.define(_up, inputs={"v": python.arg(type=ty.Any)}, outputs={"out": S}, name="Up")
-    Down = python.define(_down, inputs={"x": python.arg(type=T)}, outputs={"out": ty.Any}, name="Down")
-
-    @workflow.define(outputs={"out": ty.Any})
-    def Wf(v: ty.Any):
-        u = workflow.add(Up(v=v), name="u")
-        d = workflow.add(Down(x=u.out), name="d")  # the lazy connection S -> T is type-checked here
-        return d.out
-
-    return Wf(v=v)(cache_root=cache_root).out
+    Up = python.define(_up, inputs={"v": python.arg(type=ty.Any)}, outputs={"out": S}, name=f"Up_{tag}")
+    Down = python.define(_down, inputs={"x": python.arg(type=T)}, outputs={"out": ty.Any}, name=f"Down_{tag}")
+    ns = {"workflow": workflow}
+    exec(_WF_SRC.format(tag=tag), ns)  # noqa: S102  fixed template
+    Wf = workflow.define(ns[f"Wf_{tag}"], inputs={"v": ty.Any, "up_cls": ty.Any, "down_cls": ty.Any}, outputs={"out": ty.Any})
+    return Wf(v=v, up_cls=Up, down_cls=Down)(cache_root=cache_root).out
 
 
 def workflows(ctx, env, g1):
@@ -356,8 +365,9 @@ def workflows(ctx, env, g1):
             sn, tn = R.tname(S), R.tname(T)
             dom.case((sn, tn, vrepr(v, env)), sample={"S": sn, "T": tn, "value": norm(repr(v), env)})
             try:
+                TypeParser(S)(v)  # the upstream node must be able to emit v through its own output field
                 expected = field_converter(T)(v)
-            except Exception:  # noqa: BLE001  (already reported by the pair domains)
+            except Exception:  # noqa: BLE001  (already reported by the pair domains / by C20)
                 continue
             try:
                 hash_function(v)
@@ -366,9 +376,8 @@ def workflows(ctx, env, g1):
                 unhashable += 1
                 continue
             try:
-                # a fresh cache root per workflow: the workflow classes differ only in what their
-                # constructor closes over, which pydra's function hash does not see
-                out = run_workflow(S, T, v, os.path.join(cache, f"w{i}"))
+                # a fresh cache root and distinct names per workflow (see run_workflow)
+                out = run_workflow(S, T, v, os.path.join(cache, f"w{i}"), tag=str(i))
             except Exception as e:  # noqa: BLE001
                 ctx.fail(
                     None,
